@@ -170,7 +170,7 @@ func reprFromString(r Repr, s string) ([]byte, error) {
 
 // ToLib builds the library value of a record.
 func ToLib(r Rec) (dns.RR, error) {
-	hdr := dns.RR_Header{Name: EscName(r.Name), Rrtype: r.Type, Class: r.Class, Ttl: r.TTL}
+	hdr := dns.RR_Header{Name: libName(r.Name), Rrtype: r.Type, Class: r.Class, Ttl: r.TTL}
 	layout, known := LayoutOf(r.Type)
 	if r.NoRdata {
 		if r.Type == TOPT { // the library type-asserts OPT records in several places
@@ -207,11 +207,11 @@ func ToLib(r Rec) (dns.RR, error) {
 		case U8, U16, U32, U48, U64:
 			err = setField(v, spec.Go, f.U)
 		case NameC, NameU:
-			err = setField(v, spec.Go, EscName(f.N))
+			err = setField(v, spec.Go, libName(f.N))
 		case Names:
 			var ss []string
 			for _, n := range f.NL {
-				ss = append(ss, EscName(n))
+				ss = append(ss, libName(n))
 			}
 			err = setField(v, spec.Go, ss)
 		case Str:
@@ -241,7 +241,7 @@ func ToLib(r Rec) (dns.RR, error) {
 			case 2:
 				err = setField(v, "GatewayAddr", padIP(f.B, 16))
 			case 3:
-				err = setField(v, "GatewayHost", EscName(f.N))
+				err = setField(v, "GatewayHost", libName(f.N))
 			}
 		case HIPHdr:
 			err = setField(v, "HitLength", uint64(len(f.B)))
@@ -827,7 +827,7 @@ func MsgToLib(m Msg, compress bool) (*dns.Msg, error) {
 	out.Rcode = m.Rcode
 	out.Compress = compress
 	for _, q := range m.Q {
-		out.Question = append(out.Question, dns.Question{Name: EscName(q.Name), Qtype: q.Type, Qclass: q.Class})
+		out.Question = append(out.Question, dns.Question{Name: libName(q.Name), Qtype: q.Type, Qclass: q.Class})
 	}
 	for si, sec := range [][]Rec{m.An, m.Ns, m.Ex} {
 		for _, r := range sec {
